@@ -127,7 +127,7 @@ def run(ctx):
                                         if any(c.get("v") == "%" for c in o.consts()):
                                             pct = True
         ctx.ob("R4", "percent-percent", pct, "%% must become the literal text \"%\"", fn=pf, how="branch + constant")
-        jl = pf.locals_named("justify")
+        jl = C.find_local(pf, "justify", ty="printf::Justify")
         if jl:
             vals = []
             for bb, o in prim.defs_origins(pf, jl[0]):
